@@ -437,9 +437,11 @@ def check(prop, tier="quick", seed=0):
     shim_used = sorted({s for r in results for s in r["shim"]})
     assumptions = sorted({a for r in results for a in r["assumptions"]})
     samples = []
-    for o in obligations:
-        if o.get("smt2") and len(samples) < 3:
-            samples.append({"obligation": o["name"], "status": o["status"], "smt2": o["smt2"][:4000]})
+    with_text = [o for o in obligations if o.get("smt2")]
+    # (written-out obligations: prefer whole-array post-conditions over trivial scalar field equalities)
+    with_text.sort(key=lambda o: (0 if "every element" in o["name"] else 1 if o["kind"] in ("invariant", "raises", "requires") else 2, abs(len(o["smt2"]) - 1500)))
+    for o in with_text[:3]:
+        samples.append({"obligation": o["name"], "kind": o["kind"], "status": o["status"], "backend": o.get("backend"), "smt2": o["smt2"][:4000]})
     lem = [r for r in results if r["kind"] == "lemma"]
     from symjnp import lemma as LM
     ev = {
